@@ -5,7 +5,7 @@ import json
 import os
 
 HERE = os.path.dirname(os.path.dirname(os.path.dirname(os.path.abspath(__file__))))
-PATH = os.path.join(HERE, "known_findings.json")
+PATH = os.environ.get("VERIF_KNOWN_FINDINGS") or os.path.join(HERE, "known_findings.json")  # override only for tools/selfcheck_known_findings.sh
 
 
 def load():
